@@ -863,6 +863,7 @@ func c12Frame(t *testing.T, tape *simrt.Tape, body func(e *c12Env)) *simwork.Res
 				env.violate("c12/panic", "panic in the run: %v", r)
 			}
 		}()
+		defer simnet.CloseAll() // runs last: no connection goroutine outlives the run
 		simnet.Reset()
 		simnet.Configure(simnet.Config{Seed: uint64(tape.Choose(1<<20, "netseed")), MaxSegment: 2048, SmallPermil: 250, MaxLatency: 500 * time.Microsecond})
 		env.srv = c12DrawServer(tape)
